@@ -161,6 +161,23 @@ func vfC07Run(c vfSerCase, ctx *vfCtx) *vfViolation {
 			return vfFail("%s: after continuation op %d the reloaded index answers differently from the source: %s", c.Kind, i, why)
 		}
 	}
+	// final sweep: the reloaded index accepts removals exactly like the source - every live document
+	// is removed from both in lock step, with a full scan through every modality after each removal
+	if ok, why := vfBatteriesEqual(src.fullScan(), dst.fullScan()); !ok && !approxHNSW {
+		return vfFail("%s: full scan of the reloaded index differs from the source: %s", c.Kind, why)
+	}
+	for _, id := range vfSortedU32Bool(src.live) {
+		a, b := src.removeOne(id), dst.removeOne(id)
+		if a != b {
+			return vfFail("%s: removing document %d succeeds on one of source / reloaded index only (source %v, reloaded %v)", c.Kind, id, a, b)
+		}
+		if approxHNSW {
+			continue
+		}
+		if ok, why := vfBatteriesEqual(src.fullScan(), dst.fullScan()); !ok {
+			return vfFail("%s: after removing document %d from both, the reloaded index still answers differently from the source: %s", c.Kind, id, why)
+		}
+	}
 	nonEmpty := false
 	for _, r := range reloaded {
 		if len(r) > 0 {
